@@ -215,3 +215,207 @@ Example tagged_table_rendered :
      = Ok (st, ([43;45;45;45;45;45;45;45;43;45;45;45;43;10;124;32;27;91;49;109;98;111;108;100;27;91;48;109;32;32;124;32;27;91;51;49;109;120;27;91;48;109;32;124;10;124;32;112;108;97;105;110;32;124;32;121;32;124;10;43;45;45;45;45;45;45;45;43;45;45;45;43;10]%N) (* | ESC[1m bold ESC[0m  | ESC[31m x ESC[0m | *))
      /\ strip_sgr ([43;45;45;45;45;45;45;45;43;45;45;45;43;10;124;32;27;91;49;109;98;111;108;100;27;91;48;109;32;32;124;32;27;91;51;49;109;120;27;91;48;109;32;124;10;124;32;112;108;97;105;110;32;124;32;121;32;124;10;43;45;45;45;45;45;45;45;43;45;45;45;43;10]%N) = ([43;45;45;45;45;45;45;45;43;45;45;45;43;10;124;32;98;111;108;100;32;32;124;32;120;32;124;10;124;32;112;108;97;105;110;32;124;32;121;32;124;10;43;45;45;45;45;45;45;45;43;45;45;45;43;10]%N)).
 Proof. split; eexists; (split; [vm_compute; reflexivity|]); [split; reflexivity|vm_compute; reflexivity]. Qed.
+
+(* ==== added after the Coq review (REPORT "C14: minor issues" 1-3) ====
+   table_rect above proves an UPPER bound only: `text = flat_map (t_rstrip l ++ newline) ls, every l of the full width` is
+   also satisfied by "ab\nc\n" with ls = ["ab" padded; "c" padded] - the lines ls may be anything that right-strips to the
+   written ones, and they were not even required to be free of line breaks.  Strengthened here (Proofs/TableGridLemmas.v):
+     nl_free_styleb s   no string of the style holds a line break (true of the presets);
+     solid_rightb s     the right border b_vr ends in a non-blank character, and so does the right end of every border line
+                        that is drawn (ascii and solid: true; borderless and compact: false - their lines DO lose trailing
+                        blanks, see table_rect_exact_needs_solid_right). *)
+From Clikit Require Import Proofs.TableGridLemmas.
+
+(* the lines ls hold no line break - so they are, one for one, the lines of the text before their right-strip -, and when the
+   right border is solid the right-strip removes nothing: the text is LITERALLY the lines *)
+Theorem table_rect_lines : forall share s n header rows W ind st text,
+  wf_styleb s = true -> nl_free_styleb s = true -> (1 <= n)%nat -> 0 <= ind -> rows <> [] ->
+  Z.of_nat n <= available_width s W ind (Z.of_nat n) ->
+  render_table share s n header rows W ind = Ok (st, text) ->
+  exists ls, text = flat_map (fun l => t_rstrip l ++ [10%N]) ls /\
+             Forall (fun l => zlen l = full_width s (f_cols st) ind /\ ~ In 10%N l) ls /\
+             (solid_rightb s = true -> text = flat_map (fun l => l ++ [10%N]) ls).
+Proof. exact table_rect_lines_lemma. Qed.
+Print Assumptions table_rect_lines.
+(* ascii / solid: a rectangle, literally - every line of the text has exactly the table's width, which is at most the
+   terminal's *)
+Theorem table_rect_exact : forall share s n header rows W ind st text,
+  wf_styleb s = true -> nl_free_styleb s = true -> solid_rightb s = true -> (1 <= n)%nat -> 0 <= ind -> rows <> [] ->
+  Z.of_nat n <= available_width s W ind (Z.of_nat n) ->
+  render_table share s n header rows W ind = Ok (st, text) ->
+  (exists ls, text = flat_map (fun l => l ++ [10%N]) ls /\
+              Forall (fun l => zlen l = full_width s (f_cols st) ind /\ ~ In 10%N l) ls) /\
+  full_width s (f_cols st) ind <= W /\ length (f_cols st) = n.
+Proof. exact table_rect_exact_lemma. Qed.
+Print Assumptions table_rect_exact.
+
+(* THE GRID: "every column has the same width in every row".
+   The text is the right-stripped lines of table_lines s header ind st al, which is (table_lines_reading, by definition) the
+   top border, the lines of the header row and the separating border if there is a header, the lines of every body row and
+   the bottom border; the lines of a row are  blanks ind ++ b_vl ++ row_line pre suf pad b_vc b_vr i cells cols al  for
+   i = 0 .. (lines of its tallest cell) - 1, with pre / suf the header or the cell format.  For EVERY row of the (wrapped)
+   table and every i such a line is a grid line over the SAME widths f_cols st:
+     grid_line s ind cols pre suf pieces l :=  exists xs,
+       l = blanks ind ++ b_vl ++ join_cells pre suf b_vc b_vr xs        (pre x1 suf vc pre x2 suf vc ... pre xn suf vr)
+       /\ Forall2 (fun x w => zlen x = w) xs cols                        (cell j is padded to EXACTLY the width of column j)
+       /\ Forall2 (fun x p => exists k1 k2, x = rep pad k1 ++ p ++ rep pad k2) xs pieces
+                                                                         (and holds the i-th line of cell j between paddings) *)
+Theorem table_grid : forall share s n header rows W ind st text,
+  wf_styleb s = true -> (1 <= n)%nat -> 0 <= ind -> rows <> [] ->
+  Z.of_nat n <= available_width s W ind (Z.of_nat n) ->
+  render_table share s n header rows W ind = Ok (st, text) ->
+  exists al, alignments s n = Ok al /\
+    text = flat_map (fun l => t_rstrip l ++ [10%N]) (table_lines s header ind st al) /\
+    length (f_cols st) = n /\ Forall (fun c => 0 <= c) (f_cols st) /\
+    forall row, In row (f_rows st) ->
+      length row = n /\
+      forall pre suf i,
+        grid_line s ind (f_cols st) pre suf (map (fun cell => nth i (split_on 10%N cell) []) row)
+          (blanks ind ++ b_vl (t_border s) ++
+           row_line pre suf (t_pad s) (b_vc (t_border s)) (b_vr (t_border s)) i (map (split_on 10%N) row) (f_cols st) al).
+Proof. exact table_grid_lemma. Qed.
+Print Assumptions table_grid.
+(* the three lemmas of Proofs/TableLemmas.v behind it, exported: a cell line that fits is padded to exactly the width ... *)
+Theorem padded_cell_has_column_width : forall pad a w line, zlen pad = 1 -> zlen line <= w ->
+  exists x, pad_cell pad a w line = Some x /\ zlen x = w.
+Proof. exact pad_cell_len. Qed.
+Print Assumptions padded_cell_has_column_width.
+(* ... so a row line is as wide as the columns, their cell formats and the borders between them ... *)
+Theorem row_line_width : forall pre suf pad vc vr i, zlen pad = 1 -> forall cells cols al,
+  Forall2 (fun c w => zlen (nth i c []) <= w) cells cols -> length al = length cols -> cells <> [] ->
+  zlen (row_line pre suf pad vc vr i cells cols al)
+  = zsum (map (fun w => zlen pre + w + zlen suf) cols) + (Z.of_nat (length cols) - 1) * zlen vc + zlen vr.
+Proof. exact row_line_len. Qed.
+Print Assumptions row_line_width.
+(* ... and is made of its cells as said *)
+Theorem row_line_is_a_grid_line : forall pre suf pad vc vr i, zlen pad = 1 -> forall cells cols al,
+  Forall2 (fun c w => zlen (nth i c []) <= w) cells cols -> length al = length cols ->
+  exists xs, row_line pre suf pad vc vr i cells cols al = join_cells pre suf vc vr xs /\
+    Forall2 (fun x w => zlen x = w) xs cols /\
+    Forall2 (fun x c => exists k1 k2, x = rep pad k1 ++ nth i c [] ++ rep pad k2) xs cells.
+Proof. exact row_line_grid. Qed.
+Print Assumptions row_line_is_a_grid_line.
+Theorem table_lines_reading : forall s header ind st al,
+  table_lines s header ind st al =
+  let b := t_border s in
+  let bl := map (fun l => l + excess s) (f_cols st) in
+  border_lines ind bl (b_ht b) (b_tl b) (b_ct b) (b_tr b) ++
+  (match header with
+   | [] => []
+   | _ => row_lines b (t_hpre s) (t_hsuf s) (t_pad s) ind (hd [] (f_rows st)) (f_cols st) al ++
+          border_lines ind bl (b_hc b) (b_cl b) (b_cc b) (b_cr b)
+   end) ++
+  flat_map (fun row => row_lines b (t_cpre s) (t_csuf s) (t_pad s) ind row (f_cols st) al)
+           (match header with [] => f_rows st | _ => tl (f_rows st) end) ++
+  border_lines ind bl (b_hb b) (b_bl b) (b_cb b) (b_br b).
+Proof. exact table_lines_are. Qed.
+Print Assumptions table_lines_reading.
+
+(* ---- instances ----
+   header H | IJ over  abcdefghijklmnop | x y  /  hello world | z ;  terminal width 18, indentation 2: 9 characters are left
+   for the two columns, the first one is wrapped to 6 (a 16-letter word is cut, "hello world" is broken at the blank). *)
+Definition g_w16 : str := [97;98;99;100;101;102;103;104;105;106;107;108;109;110;111;112]%N.
+Definition g_hw : str := [104;101;108;108;111;32;119;111;114;108;100]%N.
+Definition g_tbl : list (list str) := [[g_w16; [120;32;121]%N]; [g_hw; [122]%N]].
+Definition g_hdr : list str := [[72]%N; [73;74]%N].
+Example presets_conditions :
+  nl_free_styleb ascii_style = true /\ solid_rightb ascii_style = true /\
+  wf_styleb solid_style = true /\ nl_free_styleb solid_style = true /\ solid_rightb solid_style = true /\
+  nl_free_styleb borderless_style = true /\ solid_rightb borderless_style = false.
+Proof. repeat split; vm_compute; reflexivity. Qed.
+Print Assumptions presets_conditions.
+(* ascii: the hypotheses hold, and the text is literally nine lines of 18 characters *)
+Example table_rect_exact_instance :
+  2 <= available_width ascii_style 18 2 2 /\
+  exists st text, render_table share_exact ascii_style 2 g_hdr g_tbl 18 2 = Ok (st, text) /\
+    f_cols st = [6; 3] /\ f_wraps st = true /\ f_cuts st = true /\ full_width ascii_style (f_cols st) 2 = 18 /\
+    (exists ls, text = flat_map (fun l => l ++ [10%N]) ls /\ length ls = 9%nat /\ Forall (fun l => zlen l = 18 /\ ~ In 10%N l) ls) /\
+    nth 3 (split_on 10%N text) [] = [32;32;124;32;97;98;99;100;101;102;32;124;32;120;32;121;32;124]%N     (*   | abcdef | x y | *) /\
+    nth 7 (split_on 10%N text) [] = [32;32;124;32;119;111;114;108;100;32;32;124;32;32;32;32;32;124]%N.    (*   | world  |     | *)
+Proof.
+  split; [vm_compute; congruence|].
+  destruct (render_table share_exact ascii_style 2 g_hdr g_tbl 18 2) as [[st text]|] eqn:E; [|vm_compute in E; discriminate].
+  exists st, text. split; [reflexivity|].
+  destruct (table_rect_exact_lemma share_exact ascii_style 2 g_hdr g_tbl 18 2 st text eq_refl eq_refl eq_refl ltac:(lia) ltac:(lia)
+              ltac:(discriminate) ltac:(vm_compute; congruence) E) as ((ls & Et & HF) & _ & _).
+  vm_compute in E. injection E as <- <-.
+  split; [reflexivity|]. split; [reflexivity|]. split; [reflexivity|]. split; [reflexivity|].
+  split; [|split; reflexivity].
+  exists ls. split; [exact Et|]. split; [|exact HF].
+  (* nine line breaks in the text, one per line *)
+  assert (Hc : forall ls : list str, length (filter (N.eqb 10) (flat_map (fun l => l ++ [10%N]) ls)) =
+                                     (length ls + length (filter (N.eqb 10) (concat ls)))%nat).
+  { clear. induction ls as [|l ls IH]; [reflexivity|]. cbn [flat_map concat length]. rewrite !filter_app, !app_length, IH. cbn. lia. }
+  assert (Hz : filter (N.eqb 10) (concat ls) = []).
+  { clear -HF. induction HF as [|l ls [_ Hl] _ IH]; [reflexivity|]. cbn [concat]. rewrite filter_app, IH, app_nil_r.
+    clear -Hl. induction l as [|c l IHl]; [reflexivity|]. cbn [filter]. destruct (N.eqb_spec 10 c) as [<-|Hn]; [exfalso; apply Hl; now left|].
+    apply IHl. intros Hi. apply Hl. now right. }
+  pose proof (Hc ls) as Hcount. rewrite <- Et, Hz in Hcount. cbn [length] in Hcount. rewrite Nat.add_0_r in Hcount.
+  etransitivity; [symmetry; exact Hcount|vm_compute; reflexivity].
+Qed.
+Print Assumptions table_rect_exact_instance.
+(* borderless (right border empty, alignments right / centre): the written lines are 17, 18, 18, 14 and 17 characters wide -
+   the right-strip does remove blanks, so without solid_rightb only table_rect / table_rect_lines hold *)
+Example table_rect_exact_needs_solid_right :
+  wf_styleb borderless_style = true /\ nl_free_styleb borderless_style = true /\ solid_rightb borderless_style = false /\
+  2 <= available_width borderless_style 18 2 2 /\
+  exists st text, render_table share_exact borderless_style 2 g_hdr g_tbl 18 2 = Ok (st, text) /\
+    full_width borderless_style (f_cols st) 2 = 18 /\
+    map zlen (split_on 10%N text) = [17; 18; 18; 14; 17; 0].
+Proof.
+  split; [reflexivity|]. split; [reflexivity|]. split; [reflexivity|]. split; [vm_compute; congruence|].
+  eexists; eexists. split; [vm_compute; reflexivity|]. split; vm_compute; reflexivity.
+Qed.
+Print Assumptions table_rect_exact_needs_solid_right.
+(* the grid on the same ascii table: the wrapped rows, and two of their lines taken apart *)
+Example table_grid_instance :
+  exists st text al, render_table share_exact ascii_style 2 g_hdr g_tbl 18 2 = Ok (st, text) /\ alignments ascii_style 2 = Ok al /\
+    f_cols st = [6; 3] /\
+    f_rows st = [g_hdr; [[97;98;99;100;101;102;10;103;104;105;106;107;108;10;109;110;111;112]%N; [120;32;121]%N];
+                 [[104;101;108;108;111;10;119;111;114;108;100]%N; [122]%N]] /\
+    (* row 1, line 1:  ghijkl |      *)
+    grid_line ascii_style 2 [6; 3] [32%N] [32%N] [[103;104;105;106;107;108]%N; []]
+      ([32;32]%N ++ [124%N] ++ join_cells [32%N] [32%N] [124%N] [124%N] [[103;104;105;106;107;108]%N; [32;32;32]%N]) /\
+    [32;32]%N ++ [124%N] ++ join_cells [32%N] [32%N] [124%N] [124%N] [[103;104;105;106;107;108]%N; [32;32;32]%N]
+      = nth 4 (split_on 10%N text) [] /\
+    (* the header row:  H      | IJ   *)
+    [32;32]%N ++ [124%N] ++ join_cells [32%N] [32%N] [124%N] [124%N] [[72;32;32;32;32;32]%N; [73;74;32]%N]
+      = nth 1 (split_on 10%N text) [] /\
+    Forall (fun l => exists pre suf i row, In row (f_rows st) /\
+                     l = blanks 2 ++ b_vl (t_border ascii_style) ++
+                         row_line pre suf [32%N] [124%N] [124%N] i (map (split_on 10%N) row) (f_cols st) al)
+           (flat_map (fun row => row_lines ascii_border [32%N] [32%N] [32%N] 2 row (f_cols st) al) (f_rows st)).
+Proof.
+  destruct (render_table share_exact ascii_style 2 g_hdr g_tbl 18 2) as [[st text]|] eqn:E; [|vm_compute in E; discriminate].
+  destruct (table_grid_lemma share_exact ascii_style 2 g_hdr g_tbl 18 2 st text eq_refl ltac:(lia) ltac:(lia)
+              ltac:(discriminate) ltac:(vm_compute; congruence) E) as (al & A & Et & Hl & Hnn & HG).
+  exists st, text, al. split; [reflexivity|]. split; [exact A|].
+  vm_compute in E. injection E as <- <-. cbn [f_cols f_rows] in *.
+  split; [reflexivity|]. split; [reflexivity|]. split.
+  - destruct (HG _ (or_intror (or_introl eq_refl))) as [_ HG1]. specialize (HG1 [32%N] [32%N] 1%nat).
+    destruct HG1 as (xs & E1 & W1 & P1). vm_compute in A. injection A as <-.
+    exists [[103;104;105;106;107;108]%N; [32;32;32]%N]. split; [reflexivity|]. split; [repeat constructor|].
+    constructor; [exists 0, 0; reflexivity|constructor; [exists 3, 0; reflexivity|constructor]].
+  - split; [vm_compute; reflexivity|]. split; [vm_compute; reflexivity|].
+    apply Forall_flat_map. apply Forall_forall. intros row Hin. unfold row_lines. apply Forall_forall. intros l Hl'.
+    apply in_map_iff in Hl' as (i & <- & _). exists [32%N], [32%N], i, row. split; [exact Hin|reflexivity].
+Qed.
+Print Assumptions table_grid_instance.
+
+(* render_total's hypothesis  length (t_aligns s) <= n  is NECESSARY: "any column alignment" is false when more alignments
+   are set than the table has columns.  borderless_style above sets two; a one-column table inside the guard (80 columns for
+   one column) fails with Err (Other 3) - faithfully: TableStyle.get_column_alignments assigns default_alignments[i] for every
+   set alignment and raises IndexError (list assignment index out of range) for i >= nb_columns. *)
+Example render_total_needs_alignments_refuted :
+  length (t_aligns borderless_style) = 2%nat /\ (1 <= 1)%nat /\ Z.of_nat 1 <= available_width borderless_style 80 0 (Z.of_nat 1) /\
+  render_table share_exact borderless_style 1 [] [[[97]%N]] 80 0 = Err (Other 3) /\
+  ~ (forall share s n header rows W ind, (1 <= n)%nat -> Z.of_nat n <= available_width s W ind (Z.of_nat n) ->
+       exists r, render_table share s n header rows W ind = Ok r).
+Proof.
+  split; [reflexivity|]. split; [lia|]. split; [vm_compute; congruence|].
+  assert (E : render_table share_exact borderless_style 1 [] [[[97]%N]] 80 0 = Err (Other 3)) by (vm_compute; reflexivity).
+  split; [exact E|]. intros H.
+  destruct (H share_exact borderless_style 1%nat [] [[[97]%N]] 80 0 ltac:(lia) ltac:(vm_compute; congruence)) as [r Hr].
+  rewrite E in Hr. discriminate.
+Qed.
+Print Assumptions render_total_needs_alignments_refuted.
